@@ -8,19 +8,19 @@ type C15Case struct {
 }
 
 type C15Step struct {
-	Step       string `json:"step"`
-	OK         bool   `json:"ok"`
-	Err        string `json:"err"`
-	NotFound   bool   `json:"notFound"` // errors.Is(err, ErrProcessNotFound)
-	Instance   string `json:"instance"`
-	Value      string `json:"value"`
-	Found      bool   `json:"found"`
-	Protocol   string `json:"protocol"`
-	State      string `json:"state"`  // /proc state of the plugin after the step (proc mode)
-	Exited     bool   `json:"exited"` // Exited() of the client the step used
-	Serving    bool   `json:"serving"` // testmode: the server still answers a fresh reattach + ping
-	ClosedCh   bool   `json:"closedCh"`
-	Returned   bool   `json:"returned"`
+	Step     string `json:"step"`
+	OK       bool   `json:"ok"`
+	Err      string `json:"err"`
+	NotFound bool   `json:"notFound"` // errors.Is(err, ErrProcessNotFound)
+	Instance string `json:"instance"`
+	Value    string `json:"value"`
+	Found    bool   `json:"found"`
+	Protocol string `json:"protocol"`
+	State    string `json:"state"`   // /proc state of the plugin after the step (proc mode)
+	Exited   bool   `json:"exited"`  // Exited() of the client the step used
+	Serving  bool   `json:"serving"` // testmode: the server still answers a fresh reattach + ping
+	ClosedCh bool   `json:"closedCh"`
+	Returned bool   `json:"returned"`
 }
 
 type C15Op struct {
